@@ -29,6 +29,54 @@ fn okn<const B: usize, const L: usize>(v: &U<B, L>, n: usize) -> String {
 // ------------------------------------------------------------------------------------------------
 // decoders (C17). Each returns the canonical outcome line.
 
+/// A serde `Deserializer` that drives ONE chosen entry point of the visitor (whatever `deserialize_*` the `Deserialize` impl
+/// asks for), with a chosen `is_human_readable`: the visitor-method surface of `Uint`'s `Deserialize`, independent of any
+/// concrete format. kinds: u64 i64 u128 i128 f64 f32 bool char str bytes seq unit none
+pub struct VisitProbe<'a> {
+    pub hr: bool,
+    pub kind: &'a str,
+    pub payload: &'a [u8],
+}
+struct ProbeSeq<'a>(std::slice::Iter<'a, u8>);
+impl<'de, 'a> serde::de::SeqAccess<'de> for ProbeSeq<'a> {
+    type Error = serde::de::value::Error;
+    fn next_element_seed<T: serde::de::DeserializeSeed<'de>>(&mut self, seed: T) -> Result<Option<T::Value>, Self::Error> {
+        match self.0.next() {
+            Some(&b) => seed.deserialize(serde::de::value::U8Deserializer::<Self::Error>::new(b)).map(Some),
+            None => Ok(None),
+        }
+    }
+}
+impl<'de, 'a> serde::Deserializer<'de> for VisitProbe<'a> {
+    type Error = serde::de::value::Error;
+    fn deserialize_any<V: serde::de::Visitor<'de>>(self, visitor: V) -> Result<V::Value, Self::Error> {
+        let be = |n: usize| -> u128 { self.payload.iter().take(n).fold(0u128, |a, &b| (a << 8) | b as u128) };
+        match self.kind {
+            "u64" => visitor.visit_u64(be(8) as u64),
+            "i64" => visitor.visit_i64(be(8) as u64 as i64),
+            "u128" => visitor.visit_u128(be(16)),
+            "i128" => visitor.visit_i128(be(16) as i128),
+            "f64" => visitor.visit_f64(f64::from_bits(be(8) as u64)),
+            "f32" => visitor.visit_f32(f32::from_bits(be(4) as u32)),
+            "bool" => visitor.visit_bool(self.payload.first().copied().unwrap_or(0) & 1 == 1),
+            "char" => visitor.visit_char(char::from_u32(be(4) as u32).unwrap_or('x')),
+            "str" => visitor.visit_str(&String::from_utf8_lossy(self.payload)),
+            "bytes" => visitor.visit_bytes(self.payload),
+            "seq" => visitor.visit_seq(ProbeSeq(self.payload.iter())),
+            "unit" => visitor.visit_unit(),
+            _ => visitor.visit_none(),
+        }
+    }
+    fn is_human_readable(&self) -> bool {
+        self.hr
+    }
+    serde::forward_to_deserialize_any! {
+        bool i8 i16 i32 i64 i128 u8 u16 u32 u64 u128 f32 f64 char str string
+        bytes byte_buf option unit unit_struct newtype_struct seq tuple
+        tuple_struct map struct enum identifier ignored_any
+    }
+}
+
 /// an `io::Read` that returns short reads (1, 2, 3, 1, 2, 3 … bytes at a time)
 pub struct Dribble<'a>(pub &'a [u8], pub usize);
 impl std::io::Read for Dribble<'_> {
@@ -614,6 +662,16 @@ fn run<const B: usize, const L: usize>(p: &[&str]) -> String {
             };
         }
         return dec::<B, L>(name, &parse_hex_bytes(p[2]));
+    }
+    if op == "sv" {
+        // sv bits <hr 0|1> <kind> <hex payload>: `Uint::deserialize` driven through one visitor entry point
+        use serde::Deserialize;
+        let payload = parse_hex_bytes(p[4]);
+        let probe = VisitProbe { hr: p[2] == "1", kind: p[3], payload: &payload };
+        return match U::<B, L>::deserialize(probe) {
+            Ok(v) => okv(&v),
+            Err(_) => "err".into(),
+        };
     }
     if op == "exh" {
         return exh::<B, L>(p[2], &parse_hex_bytes(p[3]), p[4].parse().unwrap());
